@@ -229,3 +229,18 @@ func JSON(v any) []byte {
 	}
 	return b
 }
+
+// Journal writes the case that is about to be executed to VERIF_JOURNAL (overwriting the
+// previous one), so that a fatal, unrecoverable runtime error (stack exhaustion, a race
+// report with halt_on_error) still leaves a replayable case behind.
+func Journal(prop string, c any) {
+	p := os.Getenv("VERIF_JOURNAL")
+	if p == "" {
+		return
+	}
+	b, err := json.Marshal(map[string]any{"property": prop, "message": "journalled case: the process died while executing it (fatal runtime error)", "case": c})
+	if err != nil {
+		return
+	}
+	_ = os.WriteFile(p, b, 0o644)
+}
